@@ -214,3 +214,23 @@ pub fn c05_families() {
         }
     }
 }
+
+/// `gv twice <file>`: evaluate the same source under the same module name twice, then compile
+/// it to bytecode (debug aid for order-dependence)
+pub fn twice(args: &[String]) {
+    crate::worker::install_panic_hook();
+    let src = std::fs::read_to_string(&args[0]).unwrap();
+    let vm = vm_with(Settings::PLAIN);
+    for i in 0..2 {
+        println!("run {}: {}", i, run_program(&vm, "same", &src).short());
+    }
+    let mut buf = Vec::new();
+    let mut ser = serde_json::Serializer::new(&mut buf);
+    let r = futures::executor::block_on(vm.compile_to_bytecode("same", &src, &mut ser)).map(|_| ()).map_err(|e| e.to_string());
+    println!("compile_to_bytecode same name: {:?}", r.map_err(|e| e.lines().take(12).collect::<Vec<_>>().join("\n")));
+    let vm2 = vm_with(Settings::PLAIN);
+    let mut buf = Vec::new();
+    let mut ser = serde_json::Serializer::new(&mut buf);
+    let r = futures::executor::block_on(vm2.compile_to_bytecode("other", &src, &mut ser)).map(|_| ()).map_err(|e| e.to_string());
+    println!("compile_to_bytecode fresh vm: {:?}", r.map_err(|e| e.lines().take(12).collect::<Vec<_>>().join("\n")));
+}
